@@ -105,6 +105,13 @@ fn child_main(sc: &'static dyn Scenario, params: &Value, tmpdir: &str) -> ! {
             .map(|e| format!("step {} t{} {} a={} b={} r={}", e.step, e.tid, sim::kind_name(e.kind), e.a, e.b, e.r))
             .collect::<Vec<_>>());
     }
+    if let Ok(path) = std::env::var("IPCSIM_DUMP") {
+        let mut txt = String::new();
+        for e in &gl.seam_log {
+            txt += &format!("step {} t{} {} a={} b={} r={}\n", e.step, e.tid, sim::kind_name(e.kind), e.a, e.b, e.r);
+        }
+        let _ = std::fs::write(path, txt);
+    }
     report::write_result(&body.to_string());
     unsafe { libc::_exit(0) }
 }
